@@ -319,7 +319,9 @@ bool World::checkEdge(EdgeSlot &s, const std::string &monitor,
     for (size_t i = 0; i < got.v.size(); i++) {
         const Val &x = got.v[i];
         const Val &y = s.tab.v[i];
-        bool ok = (y.inexact) ? x.close(y) : (x.same(y) || (y.t == Val::R && x.close(y) && float(x.d) == float(y.d)));
+        // EV* forests normalise by float division and multiplication: values are
+        // compared with the tolerance the library itself uses for them
+        bool ok = (y.inexact || F.kind() == FK_EVT) ? x.close(y) : (x.same(y) || (y.t == Val::R && x.close(y) && float(x.d) == float(y.d)));
         if (!ok) {
             std::ostringstream o;
             o << what << ": " << fkName(F.kind()) << (F.spec.rel ? " rel" : " set")
@@ -461,8 +463,9 @@ Val World::randomValue(Rng &R, FKind k, int flavour) const
                 // EV+ edge values are longs: values around and beyond the
                 // 32-bit boundaries (stored in 4-byte node slots pairwise)
                 static const long wide[] = { (1L << 31), (1L << 31) + 3, 3000000000L, (1L << 32) - 1,
-                                             (1L << 32), 3L << 32, 6L << 30, (1L << 31) - 1, 5, 0 };
-                return Val::n(wide[R.below(10)]);
+                                             (1L << 32), 3L << 32, 6L << 30, (1L << 31) - 1, 5, 0,
+                                             (1L << 33), 5L << 32 };
+                return Val::n(wide[R.below(12)]);
             }
             return Val::n(R.range(0, 12));
         }
